@@ -273,3 +273,172 @@ Global Hint Resolve
   tr_ok_cJSON_ReplaceItemViaPointer tr_ok_cJSON_ReplaceItemInArray tr_ok_replace_item_in_object
   tr_ok_cJSON_ReplaceItemInObject tr_ok_cJSON_ReplaceItemInObjectCaseSensitive
   tr_ok_cJSON_Duplicate_rec tr_ok_cJSON_Duplicate tr_ok_rd_arr : tr.
+(** every monadic function of CoreDefs.v except cJSON_InitHooks, in one statement *)
+Lemma coredefs_tr_ok :
+  (∀ (oracle : nat → bool) (init : bytes), tr_ok (cJSON_malloc oracle init)) ∧
+  (∀ p : ptr, tr_ok (cJSON_free p)) ∧
+  (∀ (oracle : nat → bool) (s : ptr), tr_ok (cJSON_strdup oracle s)) ∧
+  (∀ oracle : nat → bool, tr_ok (cJSON_New_Item oracle)) ∧
+  (∀ (fuel : nat) (item : ptr), tr_ok (cJSON_Delete_fuel fuel item)) ∧
+  (∀ item : ptr, tr_ok (cJSON_Delete item)) ∧
+  (∀ item : ptr, tr_ok (cJSON_IsString item)) ∧
+  (∀ item : ptr, tr_ok (cJSON_IsNumber item)) ∧
+  (∀ item : ptr, tr_ok (cJSON_GetStringValue item)) ∧
+  (∀ item : ptr, tr_ok (cJSON_GetNumberValue item)) ∧
+  (∀ (o : ptr) (n : dbl), tr_ok (cJSON_SetNumberHelper o n)) ∧
+  (∀ (o : ptr) (n : dbl), tr_ok (cJSON_SetNumberValue o n)) ∧
+  (∀ (o : ptr) (n : Z), tr_ok (cJSON_SetIntValue o n)) ∧
+  (∀ (o : ptr) (b : bool), tr_ok (cJSON_SetBoolValue o b)) ∧
+  (∀ (oracle : nat → bool) (o v : ptr), tr_ok (cJSON_SetValuestring oracle o v)) ∧
+  (∀ (fuel : nat) (c : ptr) (s : Z), tr_ok (cJSON_GetArraySize_loop fuel c s)) ∧
+  (∀ a : ptr, tr_ok (cJSON_GetArraySize a)) ∧
+  (∀ (fuel : nat) (c : ptr) (i : Z), tr_ok (get_array_item_loop fuel c i)) ∧
+  (∀ (a : ptr) (i : Z), tr_ok (get_array_item a i)) ∧
+  (∀ (a : ptr) (i : Z), tr_ok (cJSON_GetArrayItem a i)) ∧
+  (∀ a b : ptr, tr_ok (case_insensitive_strcmp a b)) ∧
+  (∀ (fuel : nat) (c n : ptr), tr_ok (get_object_item_loop_cs fuel c n)) ∧
+  (∀ (fuel : nat) (c n : ptr), tr_ok (get_object_item_loop_ci fuel c n)) ∧
+  (∀ (o n : ptr) (cs : bool), tr_ok (get_object_item o n cs)) ∧
+  (∀ o s : ptr, tr_ok (cJSON_GetObjectItem o s)) ∧
+  (∀ o s : ptr, tr_ok (cJSON_GetObjectItemCaseSensitive o s)) ∧
+  (∀ o s : ptr, tr_ok (cJSON_HasObjectItem o s)) ∧
+  (∀ p i : ptr, tr_ok (suffix_object p i)) ∧
+  (∀ (oracle : nat → bool) (i : ptr), tr_ok (create_reference oracle i)) ∧
+  (∀ a i : ptr, tr_ok (add_item_to_array a i)) ∧
+  (∀ a i : ptr, tr_ok (cJSON_AddItemToArray a i)) ∧
+  (∀ (oracle : nat → bool) (o s i : ptr) (ck : bool), tr_ok (add_item_to_object oracle o s i ck)) ∧
+  (∀ (oracle : nat → bool) (o s i : ptr), tr_ok (cJSON_AddItemToObject oracle o s i)) ∧
+  (∀ (oracle : nat → bool) (o s i : ptr), tr_ok (cJSON_AddItemToObjectCS oracle o s i)) ∧
+  (∀ (oracle : nat → bool) (a i : ptr), tr_ok (cJSON_AddItemReferenceToArray oracle a i)) ∧
+  (∀ (oracle : nat → bool) (o s i : ptr), tr_ok (cJSON_AddItemReferenceToObject oracle o s i)) ∧
+  (∀ (oracle : nat → bool) (ty : Z), tr_ok (create_with_type oracle ty)) ∧
+  (∀ oracle : nat → bool, tr_ok (cJSON_CreateNull oracle)) ∧
+  (∀ oracle : nat → bool, tr_ok (cJSON_CreateTrue oracle)) ∧
+  (∀ oracle : nat → bool, tr_ok (cJSON_CreateFalse oracle)) ∧
+  (∀ (oracle : nat → bool) (b : bool), tr_ok (cJSON_CreateBool oracle b)) ∧
+  (∀ oracle : nat → bool, tr_ok (cJSON_CreateArray oracle)) ∧
+  (∀ oracle : nat → bool, tr_ok (cJSON_CreateObject oracle)) ∧
+  (∀ (oracle : nat → bool) (n : dbl), tr_ok (cJSON_CreateNumber oracle n)) ∧
+  (∀ (oracle : nat → bool) (ty : Z) (s : ptr), tr_ok (create_string_like oracle ty s)) ∧
+  (∀ (oracle : nat → bool) (s : ptr), tr_ok (cJSON_CreateString oracle s)) ∧
+  (∀ (oracle : nat → bool) (s : ptr), tr_ok (cJSON_CreateRaw oracle s)) ∧
+  (∀ (oracle : nat → bool) (s : ptr), tr_ok (cJSON_CreateStringReference oracle s)) ∧
+  (∀ (oracle : nat → bool) (c : ptr), tr_ok (cJSON_CreateObjectReference oracle c)) ∧
+  (∀ (oracle : nat → bool) (c : ptr), tr_ok (cJSON_CreateArrayReference oracle c)) ∧
+  (∀ mk : Z → M ptr, (∀ i : Z, tr_ok (mk i)) → ∀ (rem : nat) (i : Z) (a n p : ptr), tr_ok (create_array_loop mk rem i a n p)) ∧
+  (∀ (oracle : nat → bool) (mk : Z → M ptr) (nl : bool) (count : Z), (∀ i : Z, tr_ok (mk i)) → tr_ok (create_array_of oracle mk nl count)) ∧
+  (∀ (A : Type) (l : list A) (i : Z), tr_ok (rd_arr l i)) ∧
+  (∀ (oracle : nat → bool) (ns : option (list Z)) (c : Z), tr_ok (cJSON_CreateIntArray oracle ns c)) ∧
+  (∀ (oracle : nat → bool) (ns : option (list dbl)) (c : Z), tr_ok (cJSON_CreateFloatArray oracle ns c)) ∧
+  (∀ (oracle : nat → bool) (ns : option (list dbl)) (c : Z), tr_ok (cJSON_CreateDoubleArray oracle ns c)) ∧
+  (∀ (oracle : nat → bool) (ss : option (list ptr)) (c : Z), tr_ok (cJSON_CreateStringArray oracle ss c)) ∧
+  (∀ (oracle : nat → bool) (o n i : ptr), tr_ok (add_created_to_object oracle o n i)) ∧
+  (∀ (oracle : nat → bool) (o n : ptr), tr_ok (cJSON_AddNullToObject oracle o n)) ∧
+  (∀ (oracle : nat → bool) (o n : ptr), tr_ok (cJSON_AddTrueToObject oracle o n)) ∧
+  (∀ (oracle : nat → bool) (o n : ptr), tr_ok (cJSON_AddFalseToObject oracle o n)) ∧
+  (∀ (oracle : nat → bool) (o n : ptr) (b : bool), tr_ok (cJSON_AddBoolToObject oracle o n b)) ∧
+  (∀ (oracle : nat → bool) (o n : ptr) (d : dbl), tr_ok (cJSON_AddNumberToObject oracle o n d)) ∧
+  (∀ (oracle : nat → bool) (o n s : ptr), tr_ok (cJSON_AddStringToObject oracle o n s)) ∧
+  (∀ (oracle : nat → bool) (o n s : ptr), tr_ok (cJSON_AddRawToObject oracle o n s)) ∧
+  (∀ (oracle : nat → bool) (o n : ptr), tr_ok (cJSON_AddObjectToObject oracle o n)) ∧
+  (∀ (oracle : nat → bool) (o n : ptr), tr_ok (cJSON_AddArrayToObject oracle o n)) ∧
+  (∀ p i : ptr, tr_ok (cJSON_DetachItemViaPointer p i)) ∧
+  (∀ (a : ptr) (w : Z), tr_ok (cJSON_DetachItemFromArray a w)) ∧
+  (∀ (a : ptr) (w : Z), tr_ok (cJSON_DeleteItemFromArray a w)) ∧
+  (∀ o s : ptr, tr_ok (cJSON_DetachItemFromObject o s)) ∧
+  (∀ o s : ptr, tr_ok (cJSON_DetachItemFromObjectCaseSensitive o s)) ∧
+  (∀ o s : ptr, tr_ok (cJSON_DeleteItemFromObject o s)) ∧
+  (∀ o s : ptr, tr_ok (cJSON_DeleteItemFromObjectCaseSensitive o s)) ∧
+  (∀ (a : ptr) (w : Z) (n : ptr), tr_ok (cJSON_InsertItemInArray a w n)) ∧
+  (∀ p i r : ptr, tr_ok (cJSON_ReplaceItemViaPointer p i r)) ∧
+  (∀ (a : ptr) (w : Z) (n : ptr), tr_ok (cJSON_ReplaceItemInArray a w n)) ∧
+  (∀ (oracle : nat → bool) (o s r : ptr) (cs : bool), tr_ok (replace_item_in_object oracle o s r cs)) ∧
+  (∀ (oracle : nat → bool) (o s n : ptr), tr_ok (cJSON_ReplaceItemInObject oracle o s n)) ∧
+  (∀ (oracle : nat → bool) (o s n : ptr), tr_ok (cJSON_ReplaceItemInObjectCaseSensitive oracle o s n)) ∧
+  (∀ (oracle : nat → bool) (dfuel lfuel : nat) (item : ptr) (depth : Z) (recurse : bool), tr_ok (cJSON_Duplicate_rec oracle dfuel lfuel item depth recurse)) ∧
+  (∀ (oracle : nat → bool) (item : ptr) (recurse : bool), tr_ok (cJSON_Duplicate oracle item recurse)).
+Proof.
+  repeat lazymatch goal with |- _ ∧ _ => split end.
+  - exact tr_ok_cJSON_malloc.
+  - exact tr_ok_cJSON_free.
+  - exact tr_ok_cJSON_strdup.
+  - exact tr_ok_cJSON_New_Item.
+  - exact tr_ok_cJSON_Delete_fuel.
+  - exact tr_ok_cJSON_Delete.
+  - exact tr_ok_cJSON_IsString.
+  - exact tr_ok_cJSON_IsNumber.
+  - exact tr_ok_cJSON_GetStringValue.
+  - exact tr_ok_cJSON_GetNumberValue.
+  - exact tr_ok_cJSON_SetNumberHelper.
+  - exact tr_ok_cJSON_SetNumberValue.
+  - exact tr_ok_cJSON_SetIntValue.
+  - exact tr_ok_cJSON_SetBoolValue.
+  - exact tr_ok_cJSON_SetValuestring.
+  - exact tr_ok_cJSON_GetArraySize_loop.
+  - exact tr_ok_cJSON_GetArraySize.
+  - exact tr_ok_get_array_item_loop.
+  - exact tr_ok_get_array_item.
+  - exact tr_ok_cJSON_GetArrayItem.
+  - exact tr_ok_case_insensitive_strcmp.
+  - exact tr_ok_get_object_item_loop_cs.
+  - exact tr_ok_get_object_item_loop_ci.
+  - exact tr_ok_get_object_item.
+  - exact tr_ok_cJSON_GetObjectItem.
+  - exact tr_ok_cJSON_GetObjectItemCaseSensitive.
+  - exact tr_ok_cJSON_HasObjectItem.
+  - exact tr_ok_suffix_object.
+  - exact tr_ok_create_reference.
+  - exact tr_ok_add_item_to_array.
+  - exact tr_ok_cJSON_AddItemToArray.
+  - exact tr_ok_add_item_to_object.
+  - exact tr_ok_cJSON_AddItemToObject.
+  - exact tr_ok_cJSON_AddItemToObjectCS.
+  - exact tr_ok_cJSON_AddItemReferenceToArray.
+  - exact tr_ok_cJSON_AddItemReferenceToObject.
+  - exact tr_ok_create_with_type.
+  - exact tr_ok_cJSON_CreateNull.
+  - exact tr_ok_cJSON_CreateTrue.
+  - exact tr_ok_cJSON_CreateFalse.
+  - exact tr_ok_cJSON_CreateBool.
+  - exact tr_ok_cJSON_CreateArray.
+  - exact tr_ok_cJSON_CreateObject.
+  - exact tr_ok_cJSON_CreateNumber.
+  - exact tr_ok_create_string_like.
+  - exact tr_ok_cJSON_CreateString.
+  - exact tr_ok_cJSON_CreateRaw.
+  - exact tr_ok_cJSON_CreateStringReference.
+  - exact tr_ok_cJSON_CreateObjectReference.
+  - exact tr_ok_cJSON_CreateArrayReference.
+  - exact tr_ok_create_array_loop.
+  - exact tr_ok_create_array_of.
+  - exact @tr_ok_rd_arr.
+  - exact tr_ok_cJSON_CreateIntArray.
+  - exact tr_ok_cJSON_CreateFloatArray.
+  - exact tr_ok_cJSON_CreateDoubleArray.
+  - exact tr_ok_cJSON_CreateStringArray.
+  - exact tr_ok_add_created_to_object.
+  - exact tr_ok_cJSON_AddNullToObject.
+  - exact tr_ok_cJSON_AddTrueToObject.
+  - exact tr_ok_cJSON_AddFalseToObject.
+  - exact tr_ok_cJSON_AddBoolToObject.
+  - exact tr_ok_cJSON_AddNumberToObject.
+  - exact tr_ok_cJSON_AddStringToObject.
+  - exact tr_ok_cJSON_AddRawToObject.
+  - exact tr_ok_cJSON_AddObjectToObject.
+  - exact tr_ok_cJSON_AddArrayToObject.
+  - exact tr_ok_cJSON_DetachItemViaPointer.
+  - exact tr_ok_cJSON_DetachItemFromArray.
+  - exact tr_ok_cJSON_DeleteItemFromArray.
+  - exact tr_ok_cJSON_DetachItemFromObject.
+  - exact tr_ok_cJSON_DetachItemFromObjectCaseSensitive.
+  - exact tr_ok_cJSON_DeleteItemFromObject.
+  - exact tr_ok_cJSON_DeleteItemFromObjectCaseSensitive.
+  - exact tr_ok_cJSON_InsertItemInArray.
+  - exact tr_ok_cJSON_ReplaceItemViaPointer.
+  - exact tr_ok_cJSON_ReplaceItemInArray.
+  - exact tr_ok_replace_item_in_object.
+  - exact tr_ok_cJSON_ReplaceItemInObject.
+  - exact tr_ok_cJSON_ReplaceItemInObjectCaseSensitive.
+  - exact tr_ok_cJSON_Duplicate_rec.
+  - exact tr_ok_cJSON_Duplicate.
+Qed.
